@@ -402,7 +402,30 @@ impl<T: Samp> OutPort for POut<T> {
     }
 }
 
+/// Per-case scratch directory (tmpfs), removed on drop.
+pub struct Scratch(pub std::path::PathBuf);
+impl Scratch {
+    pub fn new() -> Self {
+        use std::sync::atomic::{AtomicU64, Ordering};
+        static N: AtomicU64 = AtomicU64::new(0);
+        let base = if std::path::Path::new("/dev/shm").is_dir() { "/dev/shm" } else { "/tmp" };
+        let p = std::path::PathBuf::from(format!("{base}/rrverif-{}-{}", std::process::id(), N.fetch_add(1, Ordering::Relaxed)));
+        std::fs::create_dir_all(&p).expect("scratch dir");
+        Scratch(p)
+    }
+    pub fn path(&self, name: &str) -> std::path::PathBuf {
+        self.0.join(name)
+    }
+}
+impl Drop for Scratch {
+    fn drop(&mut self) {
+        let _ = std::fs::remove_dir_all(&self.0);
+    }
+}
+
 pub struct Built {
+    /// scratch files the block reads/writes
+    pub scratch: Option<Scratch>,
     /// contents of a sink block's store, if it has one
     pub sink_probe: Option<Box<dyn Fn() -> Vec<u64>>>,
     pub name: String,
